@@ -160,6 +160,56 @@ class Graph:
             n = m
 
 
+def edge_cover_paths(g, init, max_len, rng, max_paths=None):
+    """Paths from `init` (lists of (action, state_id)) that together take every edge reachable from `init` at least once
+    (self-loops excluded).  Works on cyclic graphs: each path goes by a shortest route to the source of an edge not yet
+    taken and then keeps taking untaken edges while it can; paths longer than max_len are cut (the cut edges stay
+    untaken and are reached by a later path if a shorter route exists)."""
+    from collections import deque
+
+    parent = {init: None}
+    dq = deque([init])
+    while dq:
+        n = dq.popleft()
+        for a, m in g.succ.get(n, []):
+            if m not in parent:
+                parent[m] = (n, a)
+                dq.append(m)
+    untaken = {}
+    for n in parent:
+        es = [(a, m) for a, m in g.succ.get(n, []) if m != n]
+        if es:
+            untaken[n] = list(dict.fromkeys(es))
+    depth = {}
+
+    def route(n):
+        r = []
+        while parent[n] is not None:
+            p, a = parent[n]
+            r.append((a, n))
+            n = p
+        return r[::-1]
+
+    paths, skipped = [], 0
+    order = sorted(untaken, key=lambda n: len(route(n)))
+    for src in order:
+        while untaken.get(src):
+            path = route(src)
+            if len(path) >= max_len:
+                skipped += len(untaken[src])
+                untaken[src] = []
+                break
+            n = src
+            while len(path) < max_len and untaken.get(n):
+                a, m = untaken[n].pop(rng.randrange(len(untaken[n])))
+                path.append((a, m))
+                n = m
+            paths.append(path)
+            if max_paths and len(paths) >= max_paths:
+                return paths, skipped + sum(len(v) for v in untaken.values())
+    return paths, skipped
+
+
 _NODE = re.compile(r'^(-?\d+) \[label="((?:[^"\\]|\\.)*)"(,style = filled)?')
 _EDGE = re.compile(r'^(-?\d+) -> (-?\d+) \[label="([^"]*)"')
 
